@@ -23,6 +23,10 @@ type N = refttlv.Node
 type Projector struct {
 	Ver  [2]int
 	Gate bool
+	// OnVersioned is called for every occurrence of a field listed in the pinned version table:
+	// populated = the Go value carries it, emitted = the reference tree contains it at this version.
+	OnVersioned func(structName, fieldName string, populated, emitted bool)
+	dry         int // >0 while walking a subtree that is gated out (accounting only)
 }
 
 var (
@@ -237,15 +241,23 @@ func (p *Projector) value(tag uint32, rv reflect.Value) ([]*N, error) {
 				continue
 			}
 			fv := rv.Field(i)
+			intro, versioned := pinned.Introduced(t.Name(), f.Name)
+			populated := !(omitempty && fv.IsZero()) && !((fv.Kind() == reflect.Pointer || fv.Kind() == reflect.Interface || fv.Kind() == reflect.Slice) && fv.IsNil() && !(fv.Kind() == reflect.Slice && fv.Type().Elem().Kind() == reflect.Uint8)) &&
+				!(fv.Kind() == reflect.Slice && fv.Type().Elem().Kind() != reflect.Uint8 && fv.Len() == 0)
+			gatedOut := p.Gate && versioned && (p.Ver[0] < intro[0] || (p.Ver[0] == intro[0] && p.Ver[1] < intro[1]))
+			if versioned && p.OnVersioned != nil {
+				p.OnVersioned(t.Name(), f.Name, populated, populated && !gatedOut && p.dry == 0)
+			}
 			if omitempty && fv.IsZero() {
 				continue
 			}
-			if p.Gate {
-				if intro, ok := pinned.Introduced(t.Name(), f.Name); ok {
-					if p.Ver[0] < intro[0] || (p.Ver[0] == intro[0] && p.Ver[1] < intro[1]) {
-						continue
-					}
+			if gatedOut {
+				if p.OnVersioned != nil { // account for versioned fields nested below an element that is itself absent
+					p.dry++
+					_, _ = p.value(1, fv)
+					p.dry--
 				}
+				continue
 			}
 			ftag, err := fieldTag(f, name, fv)
 			if err != nil {
